@@ -18,8 +18,9 @@ type Gen struct {
 	InvalidUTF8 bool
 	// PlainKeys restricts map keys to [A-Za-z0-9_] (used where the property is about something else).
 	PlainKeys bool
-	// ExtraKeys: with PlainKeys, one key in six is drawn from this list instead (keys that are plain for every wire
-	// format and for the slash-separated exclusion syntax but look like something else, e.g. "[0]")
+	// ExtraKeys: one key in six is drawn from this list instead (C07, with PlainKeys: keys that are plain for every wire
+	// format and for the slash-separated exclusion syntax but look like something else, e.g. "[0]"; C09: keys whose byte
+	// order differs from their UTF-16 order)
 	ExtraKeys []string
 	// Plain restricts all leaves to benign values.
 	Plain bool
@@ -85,7 +86,7 @@ func (g *Gen) String(t *rapid.T, label string) string {
 }
 
 func (g *Gen) Key(t *rapid.T, label string) string {
-	if g.PlainKeys && len(g.ExtraKeys) > 0 && rapid.IntRange(0, 5).Draw(t, label+"_extra") == 0 {
+	if len(g.ExtraKeys) > 0 && rapid.IntRange(0, 5).Draw(t, label+"_extra") == 0 {
 		return rapid.SampledFrom(g.ExtraKeys).Draw(t, label+"_xk")
 	}
 	if g.PlainKeys || g.Plain {
